@@ -13,6 +13,12 @@ class Unsupported(Exception):
     pass
 
 
+def _tdiv(a, b):
+    """integer division as the machine does it (truncates toward zero)"""
+    q = abs(a) // abs(b)
+    return q if (a >= 0) == (b >= 0) else -q
+
+
 class Affine:
     """c0 + sum ci * var_i  with rational coefficients"""
     __slots__ = ("c",)
@@ -277,6 +283,8 @@ class Evaluator:
             if f2 is not None:
                 return self.call_fn(f2, [])
         s = c.get("s", "")
+        if s in getattr(self, "const_params", {}):
+            return self.const_params[s]     # a const generic parameter fixed by the caller of the evaluator
         if s == "()":
             return ()
         try:
@@ -353,7 +361,8 @@ class Evaluator:
             try:
                 return {
                     "Add": lambda: a + b, "Sub": lambda: a - b, "Mul": lambda: a * b,
-                    "Div": lambda: a // b if isinstance(a, int) else a / b, "Rem": lambda: a % b,
+                    "Div": lambda: _tdiv(a, b) if isinstance(a, int) and isinstance(b, int) else a / b,
+                    "Rem": lambda: a - b * _tdiv(a, b) if isinstance(a, int) and isinstance(b, int) else a % b,
                     "Eq": lambda: int(a == b), "Ne": lambda: int(a != b), "Lt": lambda: int(a < b), "Le": lambda: int(a <= b),
                     "Gt": lambda: int(a > b), "Ge": lambda: int(a >= b), "BitAnd": lambda: a & b, "BitOr": lambda: a | b,
                     "BitXor": lambda: a ^ b, "Shl": lambda: a << b, "Shr": lambda: a >> b,
@@ -492,6 +501,35 @@ class Evaluator:
         if short.startswith("core::num::<impl ") and short.endswith(("::wrapping_sub", "::wrapping_add", "::saturating_sub")):
             op = "Sub" if "sub" in short else "Add"
             return self.binop(op, args[0], args[1])
+        sh0 = short.split("::<")[0] if not short.startswith("<") else short
+        if short.endswith("ops::index::Index::index") and len(args) == 2 and isinstance(args[0], Ref) and args[0].key[0] == "ext" and isinstance(args[1], int):
+            v = self.ext(args[0].key[1:])
+            if isinstance(v, (tuple, list)) and 0 <= args[1] < len(v):
+                return Ref(args[0].key + (args[1],))
+            raise Unsupported("index %r out of range of %r" % (args[1], v))
+        if short in ("alloc::vec::Vec::<T, A>::is_empty", "core::slice::<impl [T]>::is_empty", "alloc::vec::Vec::<T, A>::len", "core::slice::<impl [T]>::len") and len(args) == 1:
+            v = self.deref_val(args[0])
+            if isinstance(v, (tuple, list)):
+                return int(len(v) == 0) if short.endswith("is_empty") else len(v)
+        if short == "core::slice::<impl [T]>::get" and len(args) == 2 and isinstance(args[0], Ref) and args[0].key[0] == "ext" and isinstance(args[1], int):
+            v = self.ext(args[0].key[1:])
+            if isinstance(v, (tuple, list)):
+                if 0 <= args[1] < len(v):
+                    return Enum("core::option::Option", 1, "Some", [Ref(args[0].key + (args[1],))])
+                return Enum("core::option::Option", 0, "None", [])
+        if short.startswith("core::num::<impl ") and short.endswith("::checked_sub") and len(args) == 2 and all(isinstance(a, int) for a in args):
+            r = args[0] - args[1]
+            uns = short[len("core::num::<impl "):].startswith("u")
+            if uns and r < 0:
+                return Enum("core::option::Option", 0, "None", [])
+            return Enum("core::option::Option", 1, "Some", [r])
+        if sh0 in ("core::cmp::Ord::clamp",) and len(args) == 3 and all(isinstance(q, int) and not isinstance(q, bool) for q in args):
+            return max(args[1], min(args[2], args[0]))
+        if short.startswith("core::option::Option::<") and args and isinstance(args[0], Enum) and short.split("::")[-1] in ("copied", "cloned"):
+            o = args[0]
+            if o.name == "None":
+                return o
+            return Enum(o.adt, o.idx, o.name, [self.deref_val(o.fields[0])])
         if short.startswith("core::option::Option::<T>::") and args and isinstance(args[0], Enum):
             meth = short.split("::")[-1]
             o = args[0]
